@@ -81,9 +81,10 @@ def check(pid, tier, seed, only=None, jobs_n=None):
         frames = [l for l in tb.splitlines() if l.strip().startswith("File ")]
         last = frames[-1] if frames else ""
         rp = os.path.join(EVID, "replays", f"{pid}-import.json")
-        json.dump({"module": modname, "fn": None, "import_failure": tb[-4000:]}, open(rp, "w"), indent=1)
+        json.dump({"module": modname, "fn": None, "import_only": True, "import_failure": tb[-4000:]}, open(rp, "w"), indent=1)
         repo = os.environ.get("VF_REPO", "/repo")
-        if repo + "/tartiflette" in last:
+        # any frame inside the repository below the harness: the real code raised while a (valid) catalogue schema was being built
+        if any((repo + "/tartiflette") in l for l in frames):
             print(tb[-2000:])
             print(f"VIOLATION property={pid} replay={rp}")
             write_evidence(pid, tier, seed, t0, [], [], 1, {}, note="harness import failed inside tartiflette: " + last.strip())
@@ -151,6 +152,28 @@ def check(pid, tier, seed, only=None, jobs_n=None):
                 rec["verdict"] = "harness-error"
                 rec["detail"] = outp[-1500:]
                 harness_errors.append(f"{v['fn']} {v['shard']}: {st} args={v['args']} did not reproduce (rc={rc})")
+        elif st == "REPEAT_DIFF":
+            # the same concrete sample run twice in one process gave two different observations: the response depends on history
+            nrep += 1
+            rp = os.path.join(EVID, "replays", f"{pid}-{v['fn']}-{nrep}.json")
+            json.dump({"property": pid, "module": modname, "fn": v["fn"], "shard": v["shard"], "args": v["args"], "repeat": True}, open(rp, "w"), indent=1, default=repr)
+            rc, outp = replay(rp)
+            rec["replay"] = rp; rec["args"] = v["args"]
+            if rc == 1:
+                rec["verdict"] = "violation"; violations.append((rp, v, outp))
+            else:
+                rec["verdict"] = "harness-error"; harness_errors.append(f"{v['fn']} {v['shard']}: repeated sample differed in the worker but not in a fresh process")
+        elif st == "REPEAT_DIFF":
+            # the same concrete sample run twice in one process gave two different observations: the response depends on history
+            nrep += 1
+            rp = os.path.join(EVID, "replays", f"{pid}-{v['fn']}-{nrep}.json")
+            json.dump({"property": pid, "module": modname, "fn": v["fn"], "shard": v["shard"], "args": v["args"], "repeat": True}, open(rp, "w"), indent=1, default=repr)
+            rc, outp = replay(rp)
+            rec["replay"] = rp; rec["args"] = v["args"]
+            if rc == 1:
+                rec["verdict"] = "violation"; violations.append((rp, v, outp))
+            else:
+                rec["verdict"] = "harness-error"; harness_errors.append(f"{v['fn']} {v['shard']}: repeated sample differed in the worker but not in a fresh process")
         elif st == "IMPORT_FAIL":
             nrep += 1
             rp = os.path.join(EVID, "replays", f"{pid}-{v['fn']}-{nrep}.json")
